@@ -12,3 +12,5 @@ for id in $IDS; do
   if [ -n "$out" ]; then echo "$id: caught by $p"; else echo "$id: NOT caught by $p"; fi
 done
 git -C /repo status --short
+# the C15 runs regenerate lean/AiutiVerif/Generated/Decorators.lean from the (patched) source: put the tree's own back
+(cd /verif && timeout 600 bin/check C15 quick > /dev/null 2>&1; git -C /verif status --short lean/AiutiVerif/Generated)
